@@ -980,6 +980,37 @@ async fn check_order(
         if nulls_low.is_none() && ok_low != ok_high {
             *nulls_low = Some(ok_low);
         }
+        // ORDER BY <ordinal>: the standard's way to name a select-list position is honoured
+        // (or refused), never taken for a constant
+        if q.group_by.is_none() && keys.len() == 1 && at % 3 == 0 {
+            let (ki, desc) = keys[0];
+            let mut bare = ordered.clone();
+            bare.order.clear();
+            let sql = format!("{} ORDER BY {}{}", bare.sql(), ki + 1, if desc { " DESC" } else { "" });
+            let o = db.exec(&sql).await;
+            cx.stats.evaluations += 1;
+            match o.rows() {
+                Some(nrow) => {
+                    // compared on the key column with the named spelling (which passed above)
+                    if key_proj(nrow, &keys) != key_proj(&orow, &keys) {
+                        cx.violate(Violation::new(
+                            "C12",
+                            "order-by-position-ignored",
+                            Some(at),
+                            format!(
+                                "{sql}: keys come back as [{}], ORDER BY {} gives [{}]",
+                                rows_brief(&key_proj(nrow, &keys), 16),
+                                q.order[0].col,
+                                rows_brief(&key_proj(&orow, &keys), 16)
+                            ),
+                        ));
+                        return;
+                    }
+                    cx.probe("order-by-position-checked");
+                }
+                None => cx.probe("order-by-position-refused"),
+            }
+        }
         // an explicit NULLS FIRST / NULLS LAST is honoured (or refused), never silently ignored
         if q.group_by.is_none() && keys.len() == 1 {
             let ki = keys[0].0;
